@@ -305,6 +305,9 @@ func dirmodel(r *core.Run, cfg dmConfig) {
 	})
 	d.refreshPoint("initial")
 	steps := 1 + src.Intn(8)
+	if r.Tier == "thorough" && src.Bool(1, 3) {
+		steps = 8 + src.Intn(17) // deeper histories in the thorough tier
+	}
 	for s := 0; s < steps; s++ {
 		src.Begin("step")
 		k := 1 + src.Intn(3)
